@@ -120,9 +120,9 @@ CHECKS = {
                        "explicit future positions, a retried last position (acknowledged no-op), an older position (Past), empty batches, batches, truncate counts, "
                        "checked call by call against a model. Behaviour across restarts is not claimed."),
         "level_note": "trusted: kani-compiler, CBMC, CaDiCaL, the reference queue in harness/mem.rs; <= 4 retained records, payloads <= 3 bytes, concrete positions",
-        "filters": ["c05_", "c18_iso_q"],
-        "quick": {"harnesses": [("real", "c05_obs*_q*"), ("real", "c05_ring_wrap_q"), ("real", "c05_big_q*"), ("real", "c05_range_sym_q*"), ("real", "c18_iso_q_00[0-3]"), ("real", "c05_log_q*"), ("real", "c05_log2_q_00[0178]")], "jobs": 14, "timeout": 1200},
-        "thorough": {"harnesses": [("real", "c05_obs*"), ("real", "c05_ring_wrap_q"), ("real", "c05_big_q*"), ("real", "c05_range_sym_*"), ("real", "c18_iso_q_0*"), ("real", "c05_log_*")], "jobs": 16, "timeout": 2400},
+        "filters": ["c05_", "c18_iso_q", "c13_one"],
+        "quick": {"harnesses": [("real", "c05_obs*_q*"), ("real", "c05_ring_wrap_q"), ("real", "c05_big_q*"), ("real", "c05_range_sym_q*"), ("real", "c18_iso_q_00[0-3]"), ("real", "c05_log_q*"), ("real", "c05_log2_q_00[0178]"), ("real", "c13_one_q_00[3-5]")], "jobs": 14, "timeout": 1200},
+        "thorough": {"harnesses": [("real", "c05_obs*"), ("real", "c05_ring_wrap_q"), ("real", "c05_big_q*"), ("real", "c05_range_sym_*"), ("real", "c18_iso_q_0*"), ("real", "c05_log_*"), ("real", "c13_one_q_0*")], "jobs": 16, "timeout": 2400},
         "rule": ("case = one operation script (appends of 0..3 symbolic bytes at next / +1 / +2 / rejected position, truncations at 8 "
                  "relative targets) or one symbolic-bounds range query on a constructed state; lock step with the reference; "
                  "non-trivial = at least two accepted appends; counted from CBMC's symex log"),
